@@ -7,11 +7,17 @@ MANIFEST = {
     "text": "TLC checks the independently stated clauses of C10 (less-than-n exact + progress = value/n, every-n on "
             "multiples, change-of against the value last reported incl. a history variable for all value histories "
             "up to the bound, optimum-reached, random-chance counting, and/or/not = every operand exactly once + "
-            "Boolean combination, loop passes = n and tests = n + 1) exhaustively on bounded models of "
+            "Boolean combination, loop passes = n and tests = n + 1, loops and scopes nested in one another: in "
+            "every program in which each scope hosts at most one loop every loop counts 0..n on its own counter "
+            "with progress k/n whatever runs inside or around it -- NestExact, NestOwnCounter -- and no scope "
+            "changes what its surroundings see -- ScopeIsolates) exhaustively on bounded models of "
             "Conditions.tla; every transition of those models (all (n, value) pairs, all prepared change-of states, "
             "all formulas up to the depth bound over scripted operands, loops with a real LessThanN::iterations(n) "
-            "and a counting body) is replayed on the real mahf conditions through Condition::init/evaluate, and "
-            "seeded random histories (n up to 10^4, random formulas of depth <= 5, float-neighbour cases of "
+            "and a counting body, all loop/scope/tick/set programs up to the node bound run as init-require-execute "
+            "with probes at every tick, condition test and scope border) is replayed on the real mahf conditions "
+            "and Loop/Scope/Block components, and "
+            "seeded random histories (n up to 10^4, random formulas of depth <= 5, random nested programs up to 4 "
+            "deep and an (n, m) grid of scoped loop nests, float-neighbour cases of "
             "optimum-reached, 4000-evaluation frequency series of random-chance judged at 6 sigma by the spec) are "
             "recorded; TLC validates every recorded call (arguments, reply, observed values, progress fraction) as "
             "a step of the spec.",
@@ -23,7 +29,7 @@ MANIFEST = {
 }
 
 PROPS = ("UnreadableIsError LessThanExact EveryExact ChangeExact OptimumExact ChanceCounted LogicExact "
-         "LoopExact LoopFromAnywhere")
+         "LoopExact LoopFromAnywhere NestExact NestOwnCounter ScopeIsolates")
 
 ALL_LENS = ["iter", "eval", "fval", "obj"]
 
@@ -33,11 +39,12 @@ def tla_set(xs):
 
 
 def constants(lens, val=(), ns=(), ds=(), pts=(0, 5, 10), ops=(), trials=0, depth=0, arity=0, leaves=0,
-              eps=(), opts=()):
+              eps=(), opts=(), psize=0, pdepth=0):
     return ("CONSTANTS\n  Lens = %s\n  Val = %s\n  Ns = %s\n  Ds = %s\n  Pts = %s\n  Ops = %s\n  MaxTrials = %d\n"
-            "  MaxDepth = %d\n  MaxArity = %d\n  MaxLeaves = %d\n  Eps = %s\n  Opts = %s\n" % (
+            "  MaxDepth = %d\n  MaxArity = %d\n  MaxLeaves = %d\n  Eps = %s\n  Opts = %s\n"
+            "  MaxPSize = %d\n  MaxPDepth = %d\n" % (
                 tla_set(lens), tla_set(val), tla_set(ns), tla_set(ds), tla_set(pts), tla_set(ops), trials,
-                depth, arity, leaves, tla_set(eps), tla_set(opts)))
+                depth, arity, leaves, tla_set(eps), tla_set(opts), psize, pdepth))
 
 
 def cfg_mc(**kw):
@@ -57,7 +64,7 @@ def cfg_trace():
             "POSTCONDITION TraceDone\nCHECK_DEADLOCK FALSE\n")
 
 
-EVALS = ("lt", "every", "co", "optimum", "optimum_at", "rc", "rc_end", "logic", "loop")
+EVALS = ("lt", "every", "co", "optimum", "optimum_at", "rc", "rc_end", "logic", "loop", "nest")
 
 DESCRIBE = {
     "state": lambda r: [r["obs"], r["progress"]],
@@ -69,7 +76,8 @@ DESCRIBE = {
 
 RULE = ("cases = calls (set observed value, Condition::init, Condition::evaluate of LessThanN / EveryN / ChangeOf / "
         "OptimumReached / RandomChance / And-Or-Not formulas over scripted operands, execution of a Loop with a real "
-        "LessThanN::iterations(n) and a counting body) executed on the real mahf code from a given abstract state; "
+        "LessThanN::iterations(n) and a counting body, run of a program of nested Loops / Scopes with probes) "
+        "executed on the real mahf code from a given abstract state; "
         "generated by (B) transition tours over every transition of the bounded TLC models and (C) seeded random "
         "histories, grids and frequency series; non-trivial = a condition was evaluated or a loop was run, or the "
         "observable state changed; distinct = distinct (observable state before, call) pairs")
@@ -94,6 +102,9 @@ def models(q):
         # all formulas up to the depth bound over scripted operands (true / false / failing)
         ("logic", dict(lens=["iter"], ops=["logic"], depth=2, arity=3, leaves=3)),
         ("chance", dict(lens=["iter"], ops=["rc"], pts=[0, 5, 10], trials=2 if q else 3)),
+        # all programs of loops (bounds 1, 2) / scopes / ticks / sets up to the node bound, nested up to 3 deep,
+        # run on a fresh state
+        ("nest", dict(lens=["iter"], val=[3], ns=[1, 2], ops=["nest"], psize=4 if q else 5, pdepth=3)),
     ] + ([] if q else [
         ("logic3", dict(lens=["iter"], ops=["logic"], depth=3, arity=2, leaves=2)),
     ])
@@ -198,7 +209,7 @@ def run(ctx):
                cfg_hist(4 if q else 5, lens=["iter"], val=[0, 1, 2], ds=[1, 2], ops=["set", "co"]),
                "mc-hist", workers=4, timeout=1500)
     vlib.vacuity(all_edges, "act.op", ["set", "lt_init", "lt", "every", "co_init", "co", "optimum", "optimum_at",
-                                       "rc", "rc_end", "logic", "loop"], "call")
+                                       "rc", "rc_end", "logic", "loop", "nest"], "call")
     vlib.vacuity(all_edges, "res.k", ["ok", "err", "bool", "ctor_err"], "reply kind")
     for op in ("lt", "every", "co", "optimum", "optimum_at", "rc", "logic"):
         vlib.vacuity([e for e in all_edges if e["act"]["op"] == op], "res.b", [0, 1], "reply of " + op)
